@@ -33,6 +33,9 @@ type PoolConfig struct {
 	WithdrawFee     *big.Int // flat fee (nil: none)
 	WrapStore       func(store.Store) store.Store
 	Slot            int // badger instance slot (worlds that coexist need different slots)
+	// NoBlockProvider leaves VipnodePool.BlockNumberProvider unset (as pool.New does). By default
+	// the world wires it the way the binary's runPool does: from the store's Stats.
+	NoBlockProvider bool
 }
 
 // Settlement is one recorded settle call.
@@ -182,6 +185,19 @@ func NewPoolWorld(cfg PoolConfig) *PoolWorld {
 	}
 	w.Pool = pool.New(w.Store, mgr)
 	w.Pool.MaxRequestHosts = cfg.MaxRequestHosts
+	if !cfg.NoBlockProvider {
+		p := w.Pool
+		p.BlockNumberProvider = func(network ethnode.NetworkID) (uint64, error) {
+			if network != p.RestrictNetwork {
+				return 0, fmt.Errorf("block number provider does not support network: %s", network)
+			}
+			stats, err := p.Store.Stats()
+			if err != nil {
+				return 0, err
+			}
+			return stats.LatestBlockNumber, nil
+		}
+	}
 	w.Payment = &payment.PaymentService{
 		NonceStore:   w.Store,
 		AccountStore: w.Store,
